@@ -251,6 +251,14 @@ func (g *Gen) seqLit(seqSort string, elems []string) string {
 				body = "(=> (and " + strings.Join(rng, " ") + ") " + body + ")"
 			}
 			g.reg.decls = append(g.reg.decls, fmt.Sprintf("(assert (forall (%s) (! %s :pattern (%s))))", strings.Join(ps, " "), body, app))
+			// a prefix of a literal is the shorter literal: s[0:k] of {e0..en-1} is {e0..ek-1}
+			if seqSort != "Bytes" && seqSort != "Str" && n <= 4 && si.Sub != "" {
+				for k := 1; k < n; k++ {
+					short := g.seqLit(seqSort, as[:k])
+					sub := fmt.Sprintf("(%s %s 0 %d)", si.Sub, app, k)
+					g.reg.decls = append(g.reg.decls, fmt.Sprintf("(assert (forall (%s) (! (= %s %s) :pattern (%s))))", strings.Join(ps, " "), sub, short, sub))
+				}
+			}
 		}
 	}
 	if n == 0 {
